@@ -291,7 +291,7 @@ func (r *Recorder) Finish(w *World, info propInfo, tier string, seed int, outDir
 		ruleCounts[k] = v
 	}
 	cov := map[string]any{
-		"explanation":         info.Explanation,
+		"explanation":         strings.TrimSpace(info.Explanation + " " + laterRules[r.Property]),
 		"rule":                info.Rule,
 		"obligations":         len(r.Obs),
 		"discharged":          discharged,
